@@ -45,6 +45,10 @@ class Ctx:
         self.float_model = "R"
 
     # -- solver helpers ------------------------------------------------------------------------------------
+    def add(self, expr):
+        # low-level assert: Solver.add() spends most of its time coercing arguments
+        z3.Z3_solver_assert(self.solver.ctx.ref(), self.solver.solver, expr.as_ast())
+
     def check(self, *assumptions):
         t0 = time.perf_counter()
         r = self.solver.check(*assumptions)
@@ -92,9 +96,13 @@ def branch(cond):
         d = e["v"]
     else:
         rt = c.check(cond)
-        rf = c.check(z3.Not(cond))
         t = rt == z3.sat
-        f = rf == z3.sat
+        if rt == z3.unsat:
+            # the path condition is satisfiable (invariant of the search; re-checked at the observation), so the other side is feasible
+            rf, f = z3.sat, True
+        else:
+            rf = c.check(z3.Not(cond))
+            f = rf == z3.sat
         if not t and not f:
             # unknown on both sides or inconsistent path: do not raise inside code under test
             if rt == z3.unknown or rf == z3.unknown:
@@ -104,7 +112,7 @@ def branch(cond):
         d = t
         c.prefix.append({"k": "b", "v": d, "more": t and f})
     c.pos += 1
-    c.solver.add(cond if d else z3.Not(cond))
+    c.add(cond if d else z3.Not(cond))
     return d
 
 
@@ -138,7 +146,7 @@ def concretize(term, limit=256):
         c.prefix.append(e)
     v = e["vals"][e["i"]]
     c.pos += 1
-    c.solver.add(term == v)
+    c.add(term == v)
     return v
 
 
@@ -195,51 +203,88 @@ def is_sym(v):
     return isinstance(v, Sym)
 
 
+_INT_CACHE = {}
+_INT_SORT = z3.IntSort()
+_REAL_SORT = z3.RealSort()
+_TRUE, _FALSE = z3.BoolVal(True), z3.BoolVal(False)
+_ONE_I, _ZERO_I = z3.IntVal(1), z3.IntVal(0)
+
+
+def _intval(v):
+    r = _INT_CACHE.get(v)
+    if r is None:
+        r = z3.IntVal(v)
+        if -4096 <= v <= 4096:
+            _INT_CACHE[v] = r
+    return r
+
+
 def zv(v):
     if isinstance(v, Sym):
         return v.z
     if isinstance(v, bool):
-        return z3.BoolVal(v)
+        return _TRUE if v else _FALSE
     if isinstance(v, int):
-        return z3.IntVal(v)
+        return _intval(v)
     if isinstance(v, float):
         if v != v or v in (math.inf, -math.inf):
             poison("nan/inf constant meets a symbolic value")
             return z3.RealVal(0)
-        fr = fractions.Fraction(v)
-        return z3.RealVal(fr)
+        return z3.RealVal(fractions.Fraction(v))
     if isinstance(v, fractions.Fraction):
         return z3.RealVal(v)
     raise TypeError(type(v))
 
 
 def _numlike(v):
-    return isinstance(v, (Sym, int, float, fractions.Fraction)) and not isinstance(v, SBool)
+    return isinstance(v, (SNum, int, float, fractions.Fraction)) or isinstance(v, SBool)
 
 
 def R(a):
-    if a.sort() == z3.IntSort():
+    srt = a.sort_kind()
+    if srt == z3.Z3_INT_SORT:
         return z3.ToReal(a)
-    if a.sort() == z3.BoolSort():
+    if srt == z3.Z3_BOOL_SORT:
         return z3.If(a, z3.RealVal(1), z3.RealVal(0))
     return a
 
 
 def _I(a):
-    if a.sort() == z3.BoolSort():
-        return z3.If(a, z3.IntVal(1), z3.IntVal(0))
+    if a.sort_kind() == z3.Z3_BOOL_SORT:
+        return z3.If(a, _ONE_I, _ZERO_I)
     return a
 
 
+def _kind(v):
+    """'i' / 'r' / 'b' from the Python-level type (no z3 calls)"""
+    if isinstance(v, SInt):
+        return "i"
+    if isinstance(v, SReal):
+        return "r"
+    if isinstance(v, (SBool, bool)):
+        return "b"
+    if isinstance(v, int):
+        return "i"
+    return "r"
+
+
 def both(a, b):
-    a, b = _I(zv(a)), _I(zv(b))
-    if a.sort() != b.sort():
-        a, b = R(a), R(b)
-    return a, b
+    ka, kb = _kind(a), _kind(b)
+    za, zb = zv(a), zv(b)
+    if ka == "b":
+        za, ka = z3.If(za, _ONE_I, _ZERO_I), "i"
+    if kb == "b":
+        zb, kb = z3.If(zb, _ONE_I, _ZERO_I), "i"
+    if ka != kb:
+        if ka == "i":
+            za = z3.ToReal(za)
+        else:
+            zb = z3.ToReal(zb)
+    return za, zb
 
 
 def num(z):
-    return SInt(z) if z.sort() == z3.IntSort() else SReal(z)
+    return SInt(z) if z.sort_kind() == z3.Z3_INT_SORT else SReal(z)
 
 
 class SBool(Sym):
